@@ -25,7 +25,7 @@ PARTIAL = ['C02_parse_unparse_partial / C02_items_simulation_partial / C02_white
            '$..$ and \\(..\\), display math \\[..\\] and $$..$$ outside math mode, comments (% text newline whitespace), '
            'paragraph breaks (whitespace run with >= 2 newlines ending with its last newline, context with the \\n\\n '
            'specials); all documents of that grammar, all contexts.',
-           'C02_parse_unparse2_partial / C02_items_simulation2_partial / C02_whitespace_irrelevant2_partial / '
+           'C02_parse_unparse2_partial / C02_parse_unparse2_modes_partial (strict AND tolerant mode) / C02_items_simulation2_partial / C02_whitespace_irrelevant2_partial / '
            'C02_tree_whitespace_irrelevant2_partial: the same for the EXTENDED grammar of coq/Doc/DocGrammar2.v = the core '
            'grammar with PRECISE text characters (a character is text when no specials sequence of the context matches at it, so '
            'a-b / don\'t / Hi! are text under the default context) plus (e1) environments \\begin{name} args body \\end{name} (known to the context or covered by its '
